@@ -93,6 +93,59 @@ theorem table_lww (t : Table) (f g : Nat) (v : Bytes) :
     | some y => rfl
     | none => simp [List.find?, hfg]
 
+/-- the table after a history of `FormattedAs` calls, oldest first -/
+def writes (t : Table) (ws : List (Nat × Bytes)) : Table := ws.foldl (fun t w => formattedAs t w.1 w.2) t
+
+/-- the abstract specification: a format name maps to the value of the last call that named it -/
+def lastWrite (ws : List (Nat × Bytes)) (g : Nat) : Option Bytes := (ws.reverse.find? (fun w => w.1 == g)).map (·.2)
+
+/-- **Refinement to a plain map, for every history**: after any sequence of `FormattedAs` calls
+`Format g` yields the value of the last call that named `g`, whatever came between, and what the
+table held before when no call named it.  (`table_lww` is the one-step case.) -/
+theorem table_history (t : Table) (ws : List (Nat × Bytes)) (g : Nat) :
+    format (writes t ws) g = (lastWrite ws g).or (format t g) := by
+  induction ws generalizing t with
+  | nil => simp [writes, lastWrite]
+  | cons w ws ih =>
+    have hstep : writes t (w :: ws) = writes (formattedAs t w.1 w.2) ws := rfl
+    rw [hstep, ih, table_lww]
+    unfold lastWrite
+    rw [List.reverse_cons, List.find?_append]
+    cases hf : List.find? (fun x => x.1 == g) ws.reverse with
+    | some y => simp
+    | none =>
+      by_cases h : g = w.1
+      · simp [h]
+      · have : (w.1 == g) = false := by simpa using fun e : w.1 = g => h e.symm
+        simp [h, this]
+
+/-- **At most one value per format, for every history**: no sequence of `FormattedAs` calls leaves
+two entries under one format name (so no reader can ever see a stale value behind a fresh one). -/
+theorem table_keys_nodup (t : Table) (ws : List (Nat × Bytes)) (h : (t.map (·.1)).Nodup) :
+    ((writes t ws).map (·.1)).Nodup := by
+  induction ws generalizing t with
+  | nil => exact h
+  | cons w ws ih =>
+    have hstep : writes t (w :: ws) = writes (formattedAs t w.1 w.2) ws := rfl
+    rw [hstep]
+    apply ih
+    unfold formattedAs
+    rw [List.map_append, List.nodup_append]
+    refine ⟨?_, by simp, ?_⟩
+    · exact (h.sublist ((List.filter_sublist).map _))
+    · intro a ha b hb
+      simp only [List.map_cons, List.map_nil, List.mem_singleton] at hb
+      subst hb
+      obtain ⟨x, hx, rfl⟩ := List.mem_map.mp ha
+      have := (List.mem_filter.mp hx).2
+      simpa using this
+
+/-- an event formatted by nobody has bytes for no format: every sink refuses it -/
+theorem table_empty (g : Nat) : format [] g = none := rfl
+
+example : format (writes [] [(1, [7]), (2, [8]), (1, [9])]) 1 = some [9] ∧
+    writes [] [(1, [7]), (2, [8]), (1, [9])] = [(2, [8]), (1, [9])] := by decide
+
 /-- FileSink's special paths: /dev/null succeeds without looking at the event; stdout / stderr are a
 pass-through of the configured format's bytes -/
 theorem filesink_specials (cfg : Nat) (t : Table) :
